@@ -87,6 +87,9 @@ class BuiltinType(Ext):
             return self.name
         raise PyExc("AttributeError", (name,))
 
+    def py_getitem(self, I, key):
+        return TypingMarker(f"{self.name}[...]")      # list[int], tuple[...], np.ndarray[...] in annotations/aliases
+
     def py_binop(self, I, op, other, reflected):
         if op == "|":
             a = [self] if not reflected else []
